@@ -1,7 +1,8 @@
 CONSTANTS p = 37
  usq = 2
  r = 13
- tr = -1
+ trabs = 1
+ trneg = TRUE
  xabs = 2
  xneg = TRUE
  fam = "B12"
